@@ -58,8 +58,8 @@ impl<'a, 'b> Encoder<'a, 'b> {
         let mut chosen: Option<(usize, SuffixPos)> = None;
         if may_compress && n > 0 {
             if let Layout::Random(src) = &mut self.layout {
-                // 0 => literal; bias: compress 5 times out of 8
-                if src.chance(160) {
+                // 0 => literal; bias: compress 4 times out of 5
+                if src.chance(205) {
                     // try label positions in a drawn order: first candidate position drawn, then scan
                     let first = src.below(n);
                     let prefer_deep = src.chance(96);
